@@ -99,7 +99,7 @@ HOOK_COMMITS.append('7573bac2'); HOOK_COMMITS.append('be5b62f7'); HOOK_COMMITS.a
 _PROG_RULE = ('fonts enumerated by gen/progenum.py and filtered by the REAL loader: (action) every action program of <=3 atoms (quick) / <=4 atoms (thorough) over a 26-atom alphabet, plus (deep, short texts) every program of 4 and 5 atoms over the 11 structural atoms (NEXT, glyph change, copy, insert, delete, assoc, attach) in the main substitution context and every 5-atom program in a 3-slot rule with pre-context and in a positioning pass - thorough: the 5-atom programs in five more contexts (rule length 1..3, pre-context, positioning) and every 6-atom program containing two of {insert/delete, copy, attach} in two contexts (3.9 M programs) -, plus programs whose run-time stack use exceeds the linear depth analysis of the loader (SET_FEAT x 2..20) '
               '{NEXT, PUT_GLYPH x|y, PUT_SUBS -1|0|+1, PUT_COPY -1|0|+1, INSERT, DELETE, ASSOC, attach.to -2..2, ATTR_SET adv/shift/att/insert, IATTR_SET user, SET_FEAT, slot/glyph-attr readers} x 6 terminators '
               '(RET_ZERO, POP_RET -2..2), in 3 (quick) / 6 (thorough) rule contexts (rule length 1..3, pre-context 0..1, maxRuleLoop 1/2/5, substitution or positioning pass) followed by a fixed attaching pass; '
-              '(constraint) every constraint program of <=4 / <=5 atoms over 20 atoms incl. CNTXT_ITEM bodies netting 0/+1/+2, plus CNTXT_ITEM bodies of k = 2..16 pushes (skipped at run time on the other slots) followed by k-1 AND/ADD/OR; (twopass) all ordered pairs (thorough: triples) of 18 hand-written attach/re-attach/delete/insert/copy/assoc rules '
+              '(constraint) every constraint program of <=4 / <=5 atoms over 20 atoms incl. CNTXT_ITEM bodies netting 0/+1/+2, plus CNTXT_ITEM bodies of k = 2..16 pushes (skipped at run time on the other slots) followed by k-1 AND/ADD/OR; (twopass) all ordered pairs (thorough: triples) of 24 hand-written attach/re-attach/delete/insert/copy/assoc rules (incl. three that change a slot and reference it from the next item, so that the loader plants a temporary copy of a slot that has children) '
               'in two passes / one pass / substitution+positioning, LTR and RTL fonts; (manyrules) scale seeds with 43..200 rules per rule length 1..4 ending in successive success states (candidate lists beyond the 128-entry rule buffers of the engine); (slotattrs) every slot-attribute code 0..79 through ATTR_SET / ATTR_ADD / PUSH_SLOT_ATTR / IATTR_SET / PUSH_ISLOT_ATTR / IATTR_ADD with sub-indices {0,1,3,255}, in fonts with 0/1/2 justification levels and 1/3 user attributes, substitution and positioning pass; (growth) a substitution rule inserting k in {1,31,62,63,64,65,100} slots per glyph, optionally a second doubling substitution pass, then a pass at iPos that does nothing / INSERTs / DELETEs (the 64-slots-per-character budget and the refusal by the loader of length-changing opcodes after iPos); (classmap) every class map of 1..2 (thorough 1..3) classes from a 5-entry catalog (empty, 1..3 members) x every linear/lookup split x PUT_GLYPH / PUT_SUBS in the 8- and 16-bit forms over every class index incl. one past the map (index equal to the size of an output class, empty classes, an output class ending the class data); (stalemap) a rule of length 2..3 that deletes one of its slots (five shapes, one with pre-context), then a rule of length 1..2 on the glyph it wrote whose attach.to names the slot k = -3..4 items away (before its slot map, inside it, the look-ahead entry, one and two past it), in the same pass, the next substitution pass or a positioning pass: entries of the shared slot map left by the longer earlier run must not be reachable.  Every accepted font x every text of length 0..3 (thorough 0..4) over {a, b, unmapped} + astral/mark/long texts x dir flags {0,1,3,6} (thorough 0..7) x {font NULL, ppm 12}. ')
 
 for _p, _what in (('C02', 'oracle: ASan/UBSan silence, rule-loop counter hook <= maxRuleLoop x (slots + insert budget + 2), n_slots <= 64 x max(1,nChars), all gr_seg_*/gr_slot_*/gr_cinfo_* queries incl. every gr_slot_attr code, allocation balance, table borrow discipline'),
@@ -181,7 +181,7 @@ CHECKS['C08'] = dict(
          'operations on ONE face and ONE font: 32 gr_make_seg variants (4 texts x dir x features x font/NULL, up to 2 live segments), destroy, justify, linebreak, feature/value label, featureval_for_lang, is_char_supported, full face dump, second font create/destroy; '
          'two searches per root: BFS to depth 4 (thorough 6) deduplicated on the mutable-state key (set of loaded glyphs, set of loaded boxes, loader present, name table read, set of cached advances, live segments) and a plain enumeration without deduplication to depth 2 (thorough 3); '
          'in EVERY visited state 72 probe segments (texts x dir {0,1,3} x features {default, language, modified} x {font, NULL}) and the face dump are compared with those of a fresh face. Each history is replayed on a fresh face. '
-         '(text_pair_histories) fonts {S-full, Awami_test, small.ttf} (thorough + Padauk, Charis, Scheherazade) x faceOptions {0, 6}: character set = base characters of the font (incl. mapped supplementary-plane characters), every pseudo-glyph character of its Silf tables, an unsupported character, and for each c also c+1, c+0x100, c+0x10000 (keys that collide under truncation / blocking); for EVERY ordered pair (c1, c2): one history step (shape [base,c1,base] in either direction, or gr_face_is_char_supported(c1)) on a fresh face, then one probe (shape [base,c2,base] x 2 directions, is_char_supported(c2)) compared with the probe on a fresh face',
+         '(text_pair_histories) fonts {S-full, Awami_test, small.ttf, S-full-c12bmp whose format-12 subtable lists BMP characters with other glyphs than format 4} (thorough + Padauk, Charis, Scheherazade) x faceOptions {0, 6}: character set = base characters of the font (incl. mapped supplementary-plane characters), every pseudo-glyph character of its Silf tables, an unsupported character, and for each c also c+1, c+0x100, c+0x10000 (keys that collide under truncation / blocking); for EVERY ordered pair (c1, c2): one history step (shape [base,c1,base] in either direction, or gr_face_is_char_supported(c1)) on a fresh face, then one probe (shape [base,c2,base] x 2 directions, is_char_supported(c2)) compared with the probe on a fresh face',
     state_meaning='states = visited API-history states in which all probes were evaluated; transitions = API operations replayed',
     level_text='Explicit-state search over API histories on real objects with a differential oracle (state reached through a history vs fresh object) in every state; key soundness is backed by an additional undeduplicated shallow enumeration.',
     level_note='Trusted: the key enumerates the mutable face/font state (read through private headers); canonical dumps. Bounded depth; at most two live segments. State not in the key (e.g. a newly introduced memo) is only reached through the undeduplicated enumeration and the exhaustive one-step text-pair histories.',
@@ -260,7 +260,7 @@ CHECKS['C06'] = dict(
     steps=[dict(name='gdl_lite', py=stream_simple('gdl_lite', 'gdl_lite.py', 'c06_stream', thorough_deadline='6000'), targets=[('asan', 'c06_stream')])],
     rule='GDL-lite programs (gen/gdl_lite.py) compiled to Silf/Glat/Gloc/cmap tables by the synthesiser: (single) every rule with pre-context 0..2 (uniform class), body length 1..3 (total <= 4 quick / 5 thorough) over 3 (thorough 5) overlapping input classes, '
          'at most two body items carrying one action from {put_glyph x|z, delete, insert z, user0=3, advance=777, put_subs([a b]->[x y])}, optional constraint (glyph attribute == v, feature == 1; thorough: on every item); (pair) ordered pairs from a 64-rule core that overlaps on many strings '
-         '(precedence by sort key, by rule order, by constraint; mixed pre-context lengths in one pass); (twopass) substitution pass then positioning pass (shift, advance, user attribute, attachment of an inserted zero-advance mark); (attr_then_pair) a pass setting a user attribute / advance followed by a pass with two core rules (inserted slots must be fresh); (backup_chain) MaxRuleLoop M in 2..5 with k <= M-1 single-slot rules that substitute and resume at their own slot (no progress, the loop limit must not intervene), then a rule spanning 2-3 slots (resuming after it or inside it), then a rule that could match inside that output; (class_lookup) PUT_SUBS through lookup classes of every size 1..8 in two member orders, with and without pre-context, every member substituted alone and in a run; (copy) PUT_COPY from the following / preceding / pre-context INPUT slot: swaps, three-slot rotations, copy followed by an attribute assignment, between a pass that marks glyphs with user attributes beyond one byte and negative and a pass testing them; (attr_ops / attr_read) ATTR_ADD / ATTR_SUB / IATTR_ADD on one item of a rule, constraints reading advance / shift of the item itself, of the pre-context item and of the following item, also after a first pass changed them; (direction) RTL fonts and reverse-direction passes. Order: the hand-shaped families first, then the single rules by total length, unconstrained before constrained (1.37 M programs in the thorough tier, about 40 min on 16 cores; a deadline cut would lose the tail of that order and is reported as exhaustive=false). '
+         '(precedence by sort key, by rule order, by constraint; mixed pre-context lengths in one pass); (twopass) substitution pass then positioning pass (shift, advance, user attribute, attachment of an inserted zero-advance mark); (attr_then_pair) a pass setting a user attribute / advance followed by a pass with two core rules (inserted slots must be fresh); (backup_chain) MaxRuleLoop M in 2..5 with k <= M-1 single-slot rules that substitute and resume at their own slot (no progress, the loop limit must not intervene), then a rule spanning 2-3 slots (resuming after it or inside it), then a rule that could match inside that output; (class_lookup) PUT_SUBS through lookup classes of every size 1..8 in two member orders, with and without pre-context, every member substituted alone and in a run; (copy) PUT_COPY from the following / preceding / pre-context INPUT slot: swaps, three-slot rotations, copy followed by an attribute assignment, between a pass that marks glyphs with user attributes beyond one byte and negative and a pass testing them; (changed_ref_attached) a base that already carries one or two attached marks is changed (PUT_GLYPH) by a later rule whose next item takes its glyph through PUT_SUBS with a slot reference to that base: the marks stay attached at the same offsets; (attr_ops / attr_read) ATTR_ADD / ATTR_SUB / IATTR_ADD on one item of a rule, constraints reading advance / shift of the item itself, of the pre-context item and of the following item, also after a first pass changed them; (direction) RTL fonts and reverse-direction passes. Order: the hand-shaped families first, then the single rules by total length, unconstrained before constrained (1.37 M programs in the thorough tier, about 40 min on 16 cores; a deadline cut would lose the tail of that order and is reported as exhaustive=false). '
          'Every program x every string of length 1..3 (thorough 1..4) over {a,b,c,d} + strings with an unmapped character x dir {0,1} (x feature 0/1 when tested): the reference interpreter (written from doc/GTF.adoc and doc/OpCodes.adoc: longest sort key first then earliest rule, constraint true, in-place stream, cursor after the rule, advance reset on glyph change, '
          'pen accumulation with shift and attachment offsets) must equal the engine on glyph ids, parent indices, advance/shift/user/attach attributes and, for LTR unreversed programs, design-unit origins and the segment advance',
     state_meaning='states = (program, string, direction, feature) evaluations; every one is a reference trace validated against the implementation',
